@@ -371,6 +371,27 @@ fn run_op(st: &mut St, a: &[&str]) -> R {
             Ok(String::new())
         }
         "dump" => Ok(dump(&st.trees[cur])),
+        "set_name" => match st.trees[cur].get_mut(&usz(a[1])) {
+            Ok(n) => {
+                n.set_name(dec_str(a[2]).unwrap());
+                Ok(String::new())
+            }
+            Err(e) => Err(terr(&e)),
+        },
+        "rename_by_name" => Ok(match st.trees[cur].get_by_name_mut(&dec_str(a[1]).unwrap()) {
+            Some(n) => {
+                n.set_name(dec_str(a[2]).unwrap());
+                n.id.to_string()
+            }
+            None => "-".into(),
+        }),
+        "set_pedge" => match st.trees[cur].get_mut(&usz(a[1])) {
+            Ok(n) => {
+                n.parent_edge = dec_len(a[2]);
+                Ok(String::new())
+            }
+            Err(e) => Err(terr(&e)),
+        },
         "reparse" => {
             let k = usz(a[1]);
             while st.trees.len() <= k {
